@@ -702,3 +702,46 @@ func init() {
 		}
 	}
 }
+
+func init() {
+	// C15: a pool created by a listed creator through the real message while the creation fee is positive (every world of the histories
+	// runs with a fee of 0: the fee then sits in the amm module account for ever), then exits by its holder and by a holder of another
+	// pool: an exit burns the shares handed in and nothing else.
+	scenarios["c15-pool-created-with-fee-then-exits"] = func(sc *Scn) {
+		w := sc.w
+		u, lp := w.Accts[2], w.Accts[0]
+		w.Seed(func(ctx sdk.Context) {
+			ap := w.App.AmmKeeper.GetParams(ctx)
+			ap.PoolCreationFee = math.NewInt(10_000_000)
+			ap.AllowedPoolCreators = append(ap.AllowedPoolCreators, u.Addr.String())
+			w.App.AmmKeeper.SetParams(ctx, ap)
+		})
+		assets := []ammtypes.PoolAsset{{Token: sdk.NewCoin("uatom", math.NewInt(1_000_000_000)), Weight: math.NewInt(10), ExternalLiquidityRatio: math.LegacyNewDec(2)},
+			{Token: sdk.NewCoin(w.usdc(), math.NewInt(5_000_000_000)), Weight: math.NewInt(10), ExternalLiquidityRatio: math.LegacyNewDec(2)}}
+		sort.Slice(assets, func(i, j int) bool { return strings.Compare(assets[i].Token.Denom, assets[j].Token.Denom) <= 0 })
+		var next uint64
+		w.Seed(func(ctx sdk.Context) { next = w.App.AmmKeeper.GetNextPoolId(ctx) })
+		code := sc.Tx("amm.createPool", u, J{"fee": "10000000"},
+			&ammtypes.MsgCreatePool{Sender: u.Addr.String(), PoolParams: ammtypes.PoolParams{UseOracle: false, SwapFee: D("0.002"), FeeDenom: w.usdc()}, PoolAssets: assets})
+		sc.stats[fmt.Sprintf("c15/createPool/code=%d", code)]++
+		sc.Empty(2 * time.Hour)
+		p1 := sc.std.Pools[0]
+		var have math.Int
+		w.Seed(func(ctx sdk.Context) {
+			c := w.App.CommitmentKeeper.GetCommitments(ctx, lp.Addr)
+			have = c.GetCommittedAmountForDenom(p1.ShareDen)
+		})
+		sc.Tx("amm.exit", lp, J{"pool": p1.Id, "shareIn": have.QuoRaw(1000).String(), "outDenom": ""},
+			&ammtypes.MsgExitPool{Sender: lp.Addr.String(), PoolId: p1.Id, MinAmountsOut: sdk.Coins{}, ShareAmountIn: have.QuoRaw(1000)})
+		if code == 0 {
+			var mine math.Int
+			w.Seed(func(ctx sdk.Context) {
+				c := w.App.CommitmentKeeper.GetCommitments(ctx, u.Addr)
+				mine = c.GetCommittedAmountForDenom(ammtypes.GetPoolShareDenom(next))
+			})
+			sc.Tx("amm.exit", u, J{"pool": next, "shareIn": mine.QuoRaw(3).String(), "outDenom": ""},
+				&ammtypes.MsgExitPool{Sender: u.Addr.String(), PoolId: next, MinAmountsOut: sdk.Coins{}, ShareAmountIn: mine.QuoRaw(3)})
+		}
+		sc.Empty(5 * time.Second)
+	}
+}
